@@ -136,6 +136,18 @@ class StreamRows(RowIterable):
         self.world.fault.cross("stream_row")
 
 
+import dataclasses as _dc
+
+
+@_dc.dataclass(frozen=True)
+class SimMarker(MarkerRelation):
+    """A user-defined marker relation (MarkerRelation is the library's documented extension point): adds no
+    information of its own and never changes row content."""
+
+    def __str__(self) -> str:
+        return f"mark({self.target})"
+
+
 class SimProcessor(Processor):
     """Concrete transfer/materialize hooks: SQLite <-> iteration, temp tables."""
 
